@@ -388,6 +388,31 @@ func c11Run(c c11Case) (v vVerdict) {
 			}
 			e.classes["other-source-requested-while-running"] = true
 			continue
+		case "cfgrunning":
+			// a client re-sends the configuration of the source that is running (with other values): it must be refused and
+			// must not touch the running source
+			if !sc.isSourceActive || !e.running {
+				continue
+			}
+			var cerr error
+			switch c.Source {
+			case "triangle":
+				cfg := &TriangleSourceConfig{Nchan: c.Nchan + 1, SampleRate: []float64{20000, 5000, 1}[st.N%3], Min: 100, Max: RawType(150 + 50*(st.N%4))}
+				_, bad = e.call("ConfigureTriangleSource", func() error { var r bool; cerr = sc.ConfigureTriangleSource(cfg, &r); return cerr })
+			case "simpulse":
+				cfg := &SimPulseSourceConfig{Nchan: c.Nchan + 1, SampleRate: []float64{20000, 5000, 10}[st.N%3], Pedestal: 500, Amplitudes: []float64{1000, 2000}, Nsamp: 100 + 10*st.N}
+				_, bad = e.call("ConfigureSimPulseSource", func() error { var r bool; cerr = sc.ConfigureSimPulseSource(cfg, &r); return cerr })
+			default:
+				continue
+			}
+			if bad != nil {
+				return *bad
+			}
+			if cerr == nil {
+				return vFailf("configure-accepted-while-running", "step %d: a Configure request for the running %s source was accepted", i, c.Source)
+			}
+			e.classes["configure-request-for-the-running-source"] = true
+			continue
 		case "selfend":
 			if e.scripted == nil || !e.running || c.RealRPC {
 				continue
@@ -945,7 +970,7 @@ func c11GenStep(t *rapid.T, c *c11Case) c11Step {
 	case k < 23:
 		return c11Step{Op: "mapload", N: rapid.SampledFrom([]int{c.Nchan, c.Nchan, c.Nchan - 1, c.Nchan + 1, 0, 3}).Draw(t, "npix"), Kind: rapid.SampledFrom([]string{"", "", "", "missing"}).Draw(t, "mapkind")}
 	case k < 24:
-		return c11Step{Op: rapid.SampledFrom([]string{"mapunload", "sendall", "wait", "startother"}).Draw(t, "misc"), N: rapid.IntRange(0, 7).Draw(t, "waitn")}
+		return c11Step{Op: rapid.SampledFrom([]string{"mapunload", "sendall", "wait", "startother", "cfgrunning", "cfgrunning"}).Draw(t, "misc"), N: rapid.IntRange(0, 7).Draw(t, "waitn")}
 	default:
 		// the fault hits a request handler only (comment.txt cannot be created); removing the whole run directory would
 		// also break the lazily created data files, whose failure stops the server by design
